@@ -93,9 +93,11 @@ def space(tier):
                 continue
             for assign in assigns:
                 for zextra in (False, True):
-                    for fmt in ("bam", "fastq", "fastq.gz"):
+                    for fmt in ("bam", "fastq", "fastq.gz", "fq", "fq.gz"):
                         if fmt == "fastq.gz" and not (T or len(names) == 2):
                             continue
+                        if fmt in ("fq", "fq.gz") and not (len(names) == 2 and ploidy == 2 and not zextra and (T or assign[0] != "absent")):
+                            continue  # the other documented FASTQ file names, on a slice
                         if fmt == "fastq" and not T and len(names) == 3 and zextra:
                             continue
                         if not T and ploidy == 3 and (fmt != "bam" or len(names) == 3):
